@@ -112,39 +112,64 @@ fn type_graph(s: &str, toks: &[tok::Tok]) -> Vec<(String, Vec<String>, Vec<Strin
 /// Is there a reference cycle among the declared types that passes through at
 /// least one type-argument / `?` edge, and no cycle made of direct edges only
 /// (the compiler reports those)?
-fn type_cycle_via_argument(g: &[(String, Vec<String>, Vec<String>)]) -> bool {
-    let names: Vec<&str> = g.iter().map(|x| x.0.as_str()).collect();
-    let idx = |n: &str| names.iter().position(|m| *m == n);
-    let n = g.len();
-    let mut all = vec![vec![false; n]; n];
-    let mut dir = vec![vec![false; n]; n];
-    for (i, (_, d, v)) in g.iter().enumerate() {
-        for x in d {
-            if let Some(j) = idx(x) {
-                all[i][j] = true;
-                dir[i][j] = true;
-            }
+/// Is there any reference cycle among the declared types?
+fn type_reference_cycle(g: &[(String, Vec<String>, Vec<String>)]) -> bool {
+    let index: std::collections::HashMap<&str, usize> = g.iter().enumerate().map(|(i, x)| (x.0.as_str(), i)).collect();
+    let adj: Vec<Vec<usize>> =
+        g.iter().map(|(_, d, v)| d.iter().chain(v).filter_map(|x| index.get(x.as_str()).copied()).collect()).collect();
+    has_cycle(&adj)
+}
+
+/// iterative three-colour depth-first search
+fn has_cycle(adj: &[Vec<usize>]) -> bool {
+    let n = adj.len();
+    let mut colour = vec![0u8; n];
+    for root in 0..n {
+        if colour[root] != 0 {
+            continue;
         }
-        for x in v {
-            if let Some(j) = idx(x) {
-                all[i][j] = true;
+        let mut stack: Vec<(usize, usize)> = vec![(root, 0)];
+        colour[root] = 1;
+        while let Some((node, next)) = stack.pop() {
+            if next < adj[node].len() {
+                stack.push((node, next + 1));
+                let m = adj[node][next];
+                match colour[m] {
+                    0 => {
+                        colour[m] = 1;
+                        stack.push((m, 0));
+                    }
+                    1 => return true,
+                    _ => {}
+                }
+            } else {
+                colour[node] = 2;
             }
         }
     }
-    let closure = |m: &mut Vec<Vec<bool>>| {
-        for k in 0..n {
-            for i in 0..n {
-                for j in 0..n {
-                    if m[i][k] && m[k][j] {
-                        m[i][j] = true;
-                    }
-                }
+    false
+}
+
+fn type_cycle_via_argument(g: &[(String, Vec<String>, Vec<String>)]) -> bool {
+    // linear in the number of declarations and references (L6 declares 10 000 types)
+    let index: std::collections::HashMap<&str, usize> = g.iter().enumerate().map(|(i, x)| (x.0.as_str(), i)).collect();
+    let n = g.len();
+    let mut all: Vec<Vec<usize>> = vec![vec![]; n];
+    let mut dir: Vec<Vec<usize>> = vec![vec![]; n];
+    for (i, (_, d, v)) in g.iter().enumerate() {
+        for x in d {
+            if let Some(&j) = index.get(x.as_str()) {
+                all[i].push(j);
+                dir[i].push(j);
             }
         }
-    };
-    closure(&mut all);
-    closure(&mut dir);
-    (0..n).any(|i| all[i][i]) && !(0..n).any(|i| dir[i][i])
+        for x in v {
+            if let Some(&j) = index.get(x.as_str()) {
+                all[i].push(j);
+            }
+        }
+    }
+    has_cycle(&all) && !has_cycle(&dir)
 }
 
 /// An identifier that is `let`-bound without a type annotation and then used
@@ -477,8 +502,8 @@ pub fn may_die(s: &str) -> bool {
             return true;
         }
         let g = type_graph(s, &toks);
-        let names: Vec<&str> = g.iter().map(|x| x.0.as_str()).collect();
-        if g.iter().any(|(_, d, v)| d.iter().chain(v).any(|x| names.contains(&x.as_str()))) {
+        // some reference cycle among the declared types (through any kind of edge)
+        if type_reference_cycle(&g) {
             return true;
         }
     }
@@ -552,7 +577,8 @@ fn is_stack_death(class: &str) -> bool {
     class == "signal:SIGABRT" || class == "signal:SIGSEGV"
 }
 
-pub const MATCHERS: [&str; 20] = [
+pub const MATCHERS: [&str; 21] = [
+    "stack_overflow_in_long_declaration_chain",
     "const_initialiser_code_dies_at_compile_time",
     "runtime_function_signature_per_call_site",
     "unconstrained_type_variable_in_record",
@@ -708,6 +734,14 @@ pub fn matches_parts(matcher: &str, class: &str, c: &Value) -> bool {
         // audit V6: a module called `a.b` and the module `b` inside `a` give their items the same symbol
         "dotted_module_name_duplicate_symbol" => {
             class.starts_with("panic:src/codegen/mod.rs:") && (msg.contains("DuplicateDefinition(") || msg.contains("IncompatibleSignature(")) && input_has_dotted_module(&c["input"])
+        }
+        // audit V7: recursion whose depth is the number of chained one-line declarations
+        "stack_overflow_in_long_declaration_chain" => {
+            let g = &c["generated_by"];
+            is_stack_death(class)
+                && g["repeater"].as_str().is_some_and(|r| r.starts_with("count:"))
+                && g["n"].as_u64().is_some_and(|n| n >= 5000)
+                && c["src"].as_str().is_some_and(|s| s.lines().count() >= 5000 || s.matches(';').count() >= 5000)
         }
         // N5
         "eq_on_zero_sized_field" => {
